@@ -28,6 +28,13 @@ def streams(tier, seed, wd, wide=False):
     cases = gen_ex.buf_cases(rng, 8000 if big else 500, 3, 14) + gen_ex.c06_cases(rng, 6000 if big else 400) + gen_ex.c15_cases(rng, 3000 if big else 200) + gen_ex.c04_cases(rng, 4000 if big else 400)
     out.append(exlib.ex_stream(exprobe, "editor", "ex04", cases,
         "ex scripts over one and several buffers (line commands, :s, :g, e!, buffer switches inside a command line, command lines that edit and then fail or fail and then edit): a per-buffer ghost stack of texts at command boundaries judges every u and redo"))
+    # vi level: every command typed in vi mode is one undo step
+    import gen_vi
+    from props import vilib
+    viprobe = vilib.build(wd)
+    cases = gen_vi.undo_cases(rng, 4000 if big else 400)
+    out.append(vilib.vi_stream(viprobe, "vi-undo", "vi04", cases,
+        "vi programs of changing commands, motions, u and ^R, a third of them with the ruler switched off or restricted: a ghost zipper of the texts at command boundaries judges every u and ^R (the implementation alone; the model is compared where it applies)"))
     return out
 
 def main(tier, seed, replay):
